@@ -120,6 +120,17 @@ def run(chk):
             gmap = np.asarray(linear_scoring(models, mapm, sarg, off_arg, norm))
             if not np.array_equal(gmap, ga):
                 chk.fail("passing a MAP-adapted machine as the UBM does not give the scores of its prior", ctx)
+            # ... and keeps standing for it when the prior is trained further / re-parameterised AFTER the MAP machine was built
+            ubm2 = copy.deepcopy(ubm)
+            mapm2 = GMMMachine(n_gaussians=C, trainer="map", ubm=ubm2)
+            mapm2.means = np.array(models[0])
+            ubm2.means = np.asarray(ubm2.means) + 0.3 * np.sqrt(np.asarray(ubm2.variances))
+            ubm2.variances = np.asarray(ubm2.variances) * 1.7
+            g_prior = np.asarray(linear_scoring(models, ubm2, sarg, off_arg, norm))
+            g_map = np.asarray(linear_scoring(models, mapm2, sarg, off_arg, norm))
+            chk.count(1, key=("map-prior-changed-later",))
+            if not np.array_equal(g_map, g_prior):
+                chk.fail("after its prior was re-parameterised, a MAP-adapted machine passed as the UBM no longer gives the scores of its prior (stale snapshot)", ctx)
         # ---- derivative: d/de sum_i log p(x_i | ubm means moved by e (model - ubm)) at e = 0
         if i % 3 == 0:
             X = gen.sample_from(r, w, mu + s * 0.5, var, 6)
